@@ -54,7 +54,7 @@ class Exec(Family):
         return [("ExecMC.tla", "ExecMC_thorough.cfg" if tier == "thorough" else "ExecMC.cfg", 8, 1200)]
 
     def rule(self, prop):
-        return {"C07": "seeded random block plans over all transaction kinds (transfers with extreme amounts, every reflected contract method with exact/short/long/wrong-typed/malformed arguments, Stub method names, raw payload mutations, XVM, bad signatures, poor senders around each fee level), 1-5 txs per block, view executions, restarts; non-trivial = block with a FAILED receipt whose state delta against the sibling node was attributable; distinct by (contract, method, class, position)",
+        return {"C07": "(a third of the plans mixes in, and eth-focused plans consist of, Ethereum-style transactions executed by the EVM: transfers, creation of a storage contract, calls that store / revert / run out of gas, messages rejected for nonce, funds, intrinsic gas or uncovered value, each EVM-failing transaction from an account of its own so that the sibling node stays in step) seeded random block plans over all transaction kinds (transfers with extreme amounts, every reflected contract method with exact/short/long/wrong-typed/malformed arguments, Stub method names, raw payload mutations, XVM, bad signatures, poor senders around each fee level), 1-5 txs per block, view executions, restarts; non-trivial = block with a FAILED receipt whose state delta against the sibling node was attributable; distinct by (contract, method, class, position)",
                 "C08": "same plans; non-trivial = executed block containing a transaction that is not a well-formed transfer; distinct by (kind, class, contract, method)",
                 "C10": "root pairs: two identical real nodes execute the same 2-5 transfers in the same / a permuted order, finally with one perturbed transaction; tx root, receipt root and state root of both blocks are compared; non-trivial = a permuted or perturbed pair; distinct by (mode, size)",
                 "C14": "same plans plus value-focused plans; non-trivial = block with a transfer or fee payment whose balances were checked; distinct by (amount kind, self/admin/contract receiver, status, ret class)"}[prop]
@@ -79,7 +79,7 @@ class Exec(Family):
         env = dict(os.environ, TMPDIR=ctx.dir)
         traces = []
         self.restarts = 0
-        runs = (("", n), ("value", n // 3 if prop != "C14" else n))
+        runs = (("", n), ("value", n // 3 if prop != "C14" else n), ("eth", n // 3))
         if prop == "C10":
             runs = (("roots", 40 if q else 1500),)
         for i, (focus, cnt) in enumerate(runs):
